@@ -1325,6 +1325,11 @@ func (x *cluster) trackNodeLeftEvent(ev events.NodeLeftEvent) {
 	x.eventsLock.Lock()
 	defer x.eventsLock.Unlock()
 
+	// ignore self
+	if x.node.PeersAddress() == ev.NodeLeft {
+		return
+	}
+
 	x.nodeJoinedEventsFilter.Remove(ev.NodeLeft)
 	if x.nodeLeftEventsFilter.Contains(ev.NodeLeft) {
 		return
